@@ -146,7 +146,9 @@ def analyse(h, v: Verdict, table, stats):
     else:
         outcome = "unknown"
         v.mismatch(f"{where}: could not classify the resumed process (codes {h['codes']})")
-    if outcome in ("ok", "ok_missing_weights", "fresh") and not finished:
+    if outcome in ("ok", "ok_missing_weights", "fresh") and not finished and h["codes"][-1] == -9:
+        v.mismatch(f"{where}: the continued run hit the harness timeout")
+    elif outcome in ("ok", "ok_missing_weights", "fresh") and not finished:
         v.violation(sigp + "continued_run_did_not_complete", f"{where}: sampling did not complete after the resume "
                     f"(exit codes {h['codes']})", replay)
     stats["outcomes"][outcome] = stats["outcomes"].get(outcome, 0) + 1
@@ -219,7 +221,9 @@ def ins_part(scratch, tier, seed, v, stats):
             else:
                 out = "unknown"
                 v.mismatch(f"{where}: could not classify the resumed process (codes {h['codes']})")
-            if out in ("ok", "fresh") and not any(e["ev"] == "done" for e in p1):
+            if out in ("ok", "fresh") and not any(e["ev"] == "done" for e in p1) and h["codes"][-1] == -9:
+                v.mismatch(f"{where}: the continued run hit the harness timeout")
+            elif out in ("ok", "fresh") and not any(e["ev"] == "done" for e in p1):
                 v.violation("ins:continued_run_did_not_complete", f"{where}: sampling did not complete after the resume "
                             f"(exit codes {h['codes']})", replay)
             stats["outcomes"]["ins_" + out] = stats["outcomes"].get("ins_" + out, 0) + 1
